@@ -1008,3 +1008,7 @@ def _(I, ctx): return BV(ctx.ELEM_STRIDE, 64)
 
 @model('re:^<.* as (std::ops::)?Drop>::drop$', 're:^(std|core)::ptr::drop_in_place$')
 def _(I, ctx, *a): return UNIT
+
+
+@model('re:^(std::boxed::)?Box::(into_raw|from_raw|leak|into_inner|into_pin|pin)$', 're:^(Rc|Arc|std::rc::Rc|std::sync::Arc)::(into_raw|from_raw|as_ptr)$')
+def _(I, ctx, v): return v
